@@ -572,7 +572,11 @@ RX = lambda s: ('rx', s)
 FMS = [('type', 'file'), ('type', 'dir'), ('type', 'symlink'), ('name', G('a')), ('name', G('a*')), ('name', RX('^a')), ('name', G('*.txt')), ('stem', G('a')), ('stem', RX('^$')),
        ('suffix', G('.txt')), ('suffixes', RX('h$')), ('const', True), ('not', ('type', 'dir')), ('and', [('type', 'file'), ('contents-empty',)]),
        ('and', [('type', 'dir'), ('dir-contents', {}, ('empty',))]), ('and', [('type', 'dir'), ('dir-contents', {'recursive': True}, ('num', '>=', 2))]),
-       ('or', [('name', G('b')), ('suffix', G('.txt'))])]
+       ('or', [('name', G('b')), ('suffix', G('.txt'))]),
+       # ONE `matches` (not -full) matcher applied to several directories in turn (each application starts from the full list of expected names)
+       ('and', [('type', 'dir'), ('dir-contents', {}, ('matches', False, [('a', None), ('e', None)]))]),
+       ('and', [('type', 'dir'), ('dir-contents', {}, ('matches', False, [('a', ('type', 'file'))]))]),
+       ('or', [('not', ('type', 'dir')), ('dir-contents', {}, ('matches', False, [('a', None), ('e', ('type', 'dir'))]))])]
 
 
 def fsms(tier):
@@ -587,7 +591,7 @@ def fsms(tier):
              [('ld/a', None)], [('b', ('type', 'dir'))]]
     for c in conds:
         out += [('matches', False, c), ('matches', True, c)]
-    sels = [('type', 'file'), ('type', 'dir'), ('name', G('a*')), ('const', False), ('type', 'symlink')]
+    sels = [('type', 'file'), ('type', 'dir'), ('name', G('a*')), ('const', False), ('type', 'symlink'), FMS[-3], FMS[-2]]
     inner = [('empty',), ('num', '==', 1), ('num', '>=', 2), ('every', ('type', 'file')), ('matches', True, [('a', None)]), ('any', ('name', G('a')))]
     for s_ in sels:
         for i_ in inner:
